@@ -16,7 +16,7 @@ type c24Space struct {
 	flags2               []string
 	widths, precsNo      []string
 	argsFull, argsRed    []string
-	argsTiny, argsMin    []string
+	argsMin              []string
 	fmtItems, fmtDeep    []string
 	escItems             []string
 	echoOpts, echoTail   []string
@@ -42,7 +42,6 @@ func c24NewSpace(thorough bool) *c24Space {
 	sp.precsNo = []string{".0", ".2"}
 	sp.argsFull = []string{"", "a", "7", "-3", "010", "0x1f", "3x", `\n`, "%s", "'A", "é", " 5", "+4", "99999999999999999999", "08", "0b11", `x\cy`}
 	sp.argsRed = []string{"", "a", "-3", "3x", `\n`, "%s", "'A", `x\cy`}
-	sp.argsTiny = []string{"", "a", "-3", "3x", "%s", `x\cy`}
 	sp.argsMin = []string{"", "a", "3x", `x\cy`}
 	sp.fmtItems = []string{"a", "s", "%%", "é", `\n`, `\t`, `\\`, `\0`, `\101`, `\x41`, `\e`, `\a`, `\c`,
 		"%s", "%b", "%c", "%d", "%i", "%u", "%o", "%x", "%-3s", "%03d", "%"}
@@ -69,7 +68,7 @@ func (sp *c24Space) fmtDeep4() []string {
 }
 
 func (sp *c24Space) rule() string {
-	g2 := fmt.Sprintf("G2 format structure: every format of <=2 items over F=%q x argument lists of <=2 over R=%q; of 3 items over D=%q x lists of <=2 over T=%q (a format without a directive gets the lists [] and [a] only)", sp.fmtItems, sp.argsRed, sp.fmtDeep, sp.argsTiny)
+	g2 := fmt.Sprintf("G2 format structure: every format of <=2 items over F=%q x argument lists of <=2 over R=%q; of 3 items over D=%q x lists of <=2 over M=%q (a format without a directive gets the lists [] and [a] only)", sp.fmtItems, sp.argsRed, sp.fmtDeep, sp.argsMin)
 	if sp.thorough {
 		g2 = fmt.Sprintf("G2 format structure: every format of <=2 items over F=%q x argument lists of <=3 over R=%q; of 3 items over F x lists of <=2 over R; of 3 items over D=%q x lists of exactly 3 over M=%q; of 4 items over D minus \\x41 x lists of <=2 over M (a format without a directive gets the lists [] and [a] only)", sp.fmtItems, sp.argsRed, sp.fmtDeep, sp.argsMin)
 	}
@@ -205,7 +204,7 @@ func (sp *c24Space) gen(emit func(c24Case)) {
 	if !sp.thorough {
 		enum.Seqs(sp.fmtDeep, 3, func(items []string) {
 			if len(items) == 3 {
-				g2(items, sp.argsTiny, 0, 2)
+				g2(items, sp.argsMin, 0, 2)
 			}
 		})
 		return
